@@ -58,7 +58,7 @@ check_C19() {
 wire_part() {
   local name=$1 scen=$2; shift 2
   mkdir -p "$S/w-$name"
-  run_part "$name" in_ns "$ROOT/bin/vfwire" -bin "$S/sipproxy" -dir "$S/w-$name" -prop "$PROP" "$@" "$scen"
+  run_part "$name" "$ROOT/tools/ns.sh" "$ROOT/bin/vfwire" -bin "$S/sipproxy" -dir "$S/w-$name" -prop "$PROP" "$@" "$scen"
 }
 
 check_C03() {
@@ -95,4 +95,11 @@ check_C01() {
 check_C12() {
   build_proxy
   wire_part wire affinity
+}
+
+check_C08() {
+  build_inpkg fixture_verif_test.go c08_hostile_verif_test.go
+  inpkg_test inpkg TestVerifC08
+  build_proxy
+  wire_part wire hostile
 }
